@@ -143,6 +143,9 @@ def run(ctx):
     ctx.rule("ESC-1", "every regex metacharacter incl. the backslash is escaped in literals per occurrence; only a backslash directly followed by d/D/s/S/w/W (a class token) is kept")
     ctx.rule("ESC-2", "escaping is applied to and stored back for every stored string of a grapheme")
     esc(ctx, prog, lib)
+    from .C02 import uni4
+    ctx.rule("UNI-4", "the union never drops an alternative unless it is absent, equal, or a class token included in the other per a table verified against the Unicode tables")
+    uni4(ctx, prog, lib)
     from .C05 import lbl2
     ctx.rule("LBL-2", "label identity in the automaton code is decided on the labels' entries (chars()), never on their joined text (value()): a class token must not share an edge with literal text")
     lbl2(ctx, lib)
